@@ -120,3 +120,61 @@ Example all_intr : res (read_n 5 2 [Interrupted; Interrupted; Deliver 3] [1;2;3]
 Proof. reflexivity. Qed.
 Example partial_then_error : read_n 5 10 [Deliver 2; Fail 7] [1;2;3] = {| res := ROk 2; data := [1;2]; calls := [5;3]; used := [Deliver 2; Fail 7] |}.
 Proof. reflexivity. Qed.
+
+(* ---- schedules without hard errors (used by C08: the chunker's refill) ----
+   If the reader only ever delivers (a positive number of bytes) or is interrupted, and there are
+   enough attempts to exhaust the script, read_n returns min(count, everything the script would
+   deliver): the result does not depend on how the deliveries are cut or where the interrupts fall. *)
+Definition benign (e : ev) : Prop := e = Interrupted \/ exists p, e = Deliver (N.pos p).
+Fixpoint offered (script : list ev) : N :=
+  match script with [] => 0 | Deliver k :: t => k + offered t | _ :: t => offered t end.
+
+Lemma loop_benign : forall script attempts count got l0 g l cs us,
+  got < count -> Forall benign script -> N.of_nat (length script) < attempts ->
+  loop script attempts count got l0 = (g, l, cs, us) -> g = N.min count (got + offered script).
+Proof.
+  induction script as [|e t IH]; intros attempts count got l0 g l cs us Hlt HB Ha H; cbn [loop] in H.
+  - assert (attempts =? 0 = false) as E by lia. rewrite E in H. inversion H; subst. cbn [offered]. lia.
+  - assert (attempts =? 0 = false) as E by (cbn [length] in Ha; lia). rewrite E in H.
+    inversion HB as [|? ? Hb Ht]; subst. destruct Hb as [->|(p & ->)].
+    + destruct (loop t (attempts - 1) count got (Some EIntr)) as [[[g1 l1] cs1] us1] eqn:L. inversion H; subst.
+      cbn [offered]. eapply IH; [exact Hlt|exact Ht| |exact L]. cbn [length] in Ha. lia.
+    + set (d := N.min (N.pos p) (count - got)) in *.
+      destruct (got + d =? count) eqn:Ef.
+      * apply N.eqb_eq in Ef. inversion H; subst g l cs us. cbn [offered]. unfold d in *. lia.
+      * apply N.eqb_neq in Ef.
+        destruct (loop t (attempts - 1) count (got + d) l0) as [[[g1 l1] cs1] us1] eqn:L. inversion H; subst g1 l1 cs us.
+        cbn [offered]. assert (Hd : d = N.pos p) by (unfold d in *; lia).
+        rewrite (IH (attempts - 1) count (got + d) l0 g l cs1 us1 ltac:(unfold d in *; lia) Ht ltac:(cbn [length] in Ha; lia) L).
+        rewrite Hd. lia.
+Qed.
+
+Theorem read_n_benign count max script stream : 0 < count -> Forall benign script -> N.of_nat (length script) < max ->
+  let o := read_n count max script stream in
+  res o = ROk (N.min count (offered script)) /\ data o = firstn (N.to_nat (N.min count (offered script))) stream.
+Proof.
+  intros Hc HB Hm. unfold read_n. assert (count =? 0 = false) as -> by lia.
+  destruct (loop script max count 0 None) as [[[g l] cs] us] eqn:L.
+  pose proof (loop_benign script max count 0 None g l cs us Hc HB Hm L) as Eg. rewrite N.add_0_l in Eg.
+  pose proof (loop_spec script max count 0 None g l cs us Hc L) as (_ & _ & _ & _ & _ & _ & _ & F & G & _).
+  destruct g as [|p]; [destruct l as [e|]|]; cbn [res data]; rewrite <- Eg; try (split; reflexivity).
+  (* nothing delivered and an error pending: only possible if the script offered nothing, and then it
+     ended on the synthetic EOF, which clears the error *)
+  exfalso. clear G.
+  assert (Hz : forall scr att got0 l0' g' l' cs' us', Forall benign scr -> N.of_nat (length scr) < att -> got0 < count ->
+               loop scr att count got0 l0' = (g', l', cs', us') -> g' = got0 -> l' = None).
+  { induction scr as [|e' t' IHs]; intros att got0 l0' g' l' cs' us' HB' Ha' Hg0 HL Hg; cbn [loop] in HL.
+    - assert (att =? 0 = false) as E by lia. rewrite E in HL. inversion HL; reflexivity.
+    - assert (att =? 0 = false) as E by (cbn [length] in Ha'; lia). rewrite E in HL.
+      inversion HB' as [|? ? Hb' Ht']; subst. destruct Hb' as [->|(p' & ->)].
+      + destruct (loop t' (att - 1) count got0 (Some EIntr)) as [[[g1 l1] cs1] us1] eqn:L1. inversion HL; subst.
+        eapply IHs; [exact Ht'| |exact Hg0|exact L1|reflexivity]. cbn [length] in Ha'. lia.
+      + destruct (got0 + N.min (N.pos p') (count - got0) =? count) eqn:Ef.
+        * apply N.eqb_eq in Ef. inversion HL; subst. exfalso. lia.
+        * apply N.eqb_neq in Ef.
+          destruct (loop t' (att - 1) count (got0 + N.min (N.pos p') (count - got0)) l0') as [[[g1 l1] cs1] us1] eqn:L1.
+          inversion HL; subst.
+          assert (Hlt2 : got0 + N.min (N.pos p') (count - got0) < count) by lia.
+          pose proof (loop_spec t' (att - 1) count _ l0' _ _ cs1 us1 Hlt2 L1) as (_ & _ & Hr & _). exfalso. lia. }
+  specialize (Hz script max 0 None 0 (Some e) cs us HB Hm Hc L eq_refl). discriminate.
+Qed.
